@@ -259,6 +259,11 @@ def rand_history(rng):
         n_ = len(desc["sequence"])
         free = set(rng.sample(range(n_), rng.randint(1, 4)))
         desc["constraints"].append(dict(kind="keep_idx", indices=[i for i in range(n_) if i not in free]))
+    if desc["objectives"] and rng.random() < 0.15:
+        # very large (non-integer) boosts: totals of six and more digits in the text summaries
+        for o in desc["objectives"]:
+            if "boost" in o:
+                o["boost"] = rng.choice([150000.25, 987654.5, 12345678.75]) * rng.choice([1, 1, 3])
     ops = []
     for _ in range(rng.randint(1, 5)):
         k = rng.choice(OPS if not desc.get("circular") else ["resolve", "optimize", "assign", "assign_original"])
